@@ -84,6 +84,23 @@ def fast_db_dir(workdir, name="db"):
     return link, cleanup
 
 
+class _Handoff:
+    """append_event alternates between two store objects; everything else is the third one's."""
+
+    def __init__(self, objs):
+        self._w = objs[:2]
+        self._r = objs[2]
+        self._n = 0
+
+    async def append_event(self, run_id, event):
+        w = self._w[self._n % 2]
+        self._n += 1
+        return await w.append_event(run_id, event)
+
+    def __getattr__(self, name):
+        return getattr(self._r, name)
+
+
 class Stores:
     """Creates stores; the sqlite file (and store object) is shared by all schedules of a check run,
     every schedule uses a fresh run_id (events of other runs are invisible to it).  For per-call-connection
@@ -101,6 +118,18 @@ class Stores:
             st = mem.MemoryWorkflowStore()
             st.poll_interval = POLL
             return st
+        if backend == "sqlite_handoff":
+            # three store OBJECTS on one database file (three processes / replicas sharing it): appends alternate between
+            # two of them, reads and subscriptions go through the third
+            if backend not in self._sq:
+                import sqlite3
+                path = os.path.join(self.dir, "events_handoff_%d.db" % next(_counter))
+                objs = [sq.SqliteWorkflowStore(path, poll_interval=POLL) for _ in range(3)]
+                k = sqlite3.connect(path)
+                k.execute("SELECT COUNT(*) FROM events").fetchall()
+                self._keep.append(k)
+                self._sq[backend] = _Handoff(objs)
+            return self._sq[backend]
         if backend not in self._sq:
             import sqlite3
             single = backend == "sqlite1"
